@@ -10,7 +10,7 @@ from mc.core import Result, SubCheck, set_partitions
 
 PROPERTY = "C09"
 ASSUMPTIONS = [
-    "sites of 2-3 (quick) / 2-4 (thorough) process zones holding 2-4 lattice streams (K=3, two heat-capacity flows, contribution d/2), flat labels, nested labels and an explicit zone tree",
+    "sites of 1-3 (quick) / 1-4 (thorough) process zones, and sites of two sub-sites given by an explicit tree (every zone that carries site records is checked), holding 2-4 lattice streams (K=3, two heat-capacity flows, contribution d/2), flat labels, nested labels and an explicit zone tree",
     "utility sets: none (defaults), an intermediate 'Both' level inside the range (enables inter-zone recovery), one outside the range (cannot), two intermediate levels",
     "bounds are checked with a tolerance of 1e-6 of the total duty",
 ]
@@ -39,10 +39,12 @@ def cases(tier, inst):
         for ms in P.stream_multisets(inst, 3, n, cps=(1, 2), dts=(1,), iso=(tier == "thorough" and n <= 3), min_n=n):
             for part in set_partitions(n, zmax):
                 nb = max(part) + 1
-                if nb < 2:
-                    continue
+                if nb < 2 and n > 2:
+                    continue                      # one-zone sites: once, with the smallest stream sets
                 for ui in range(5):
                     forms = ["flat"]
+                    if nb >= 2 and (ui in (0, 1, 3) if (tier == "thorough" or n == 2) else ui == 1 and nb == 3) and (n <= 3 or nb >= 3):
+                        forms += ["tree2"]        # a site of two sub-sites, each of one or two process zones
                     if n == 2 or tier == "thorough":
                         forms += ["tree"]
                     if nb >= 2 and (ui in (0, 1, 4)) and (n == 2 or tier == "thorough"):
@@ -68,6 +70,13 @@ def build(case):
         lab = {0: "A", 1: "A/B", 2: "C", 3: "C/D"}
         zones = [lab[b] for b in part]
         tree = None
+    elif case["form"] == "tree2":
+        nb = max(part) + 1
+        site_of = {0: "S1", 1: "S2"} if nb == 2 else {0: "S1", 1: "S1", 2: "S2", 3: "S2"}
+        zones = [f"{site_of[b]}/{names[b]}" for b in part]
+        tree = {"name": "Plant", "type": "Site", "children": [
+            {"name": sn, "type": "Site", "children": [{"name": names[b], "type": "Process Zone"} for b in sorted(set(part)) if site_of[b] == sn]}
+            for sn in sorted(set(site_of[b] for b in part))]}
     else:
         zones = [names[b] for b in part]
         tree = None
@@ -84,13 +93,29 @@ def run(case, res: Result):
     tag = f"{case['form']}:u{case['uset']}" + (":samenames" if case.get("samenames") else "") + (":optarget" if case.get("optarget") else "")
     tot = sum(abs(S.st_of(s)[2]) for s in prob["streams"])
     eps = 1e-6 * tot
-    site = master
+    recs = S.records(out)
+    if not all(f"{master.name}/{k}" in master.targets for k in (S.DI, S.TZ, S.TS)):
+        res.add_case(case, False)
+        res.violate("missing_site_records", case, {"records": list(master.targets)}, "missing_site_records:" + tag)
+        return
+    # every zone that carries site records (the root, and the sub-sites of an explicit tree) is checked the same way
+    sites = [z for _, z in S.walk(master) if f"{z.name}/{S.TZ}" in z.targets or z is master]
+    if case["form"] == "tree2" and len(sites) < 2:
+        res.violate("missing_site_records", case, {"sites": [z.name for z in sites]}, "missing_site_records:subsites:" + tag)
+    nontrivial, outcome = False, []
+    for site in sites:
+        nt, oc = check_site(site, site is master, recs, case, tag + ("" if site is master else ":subsite"), eps, res)
+        nontrivial = nontrivial or nt
+        outcome.append(oc)
+    res.add_case(case, nontrivial, outcome=outcome)
+
+
+def check_site(site, is_root, recs, case, tag, eps, res):
     tk = site.targets
     k_di, k_tz, k_ts = f"{site.name}/{S.DI}", f"{site.name}/{S.TZ}", f"{site.name}/{S.TS}"
     if k_tz not in tk or k_ts not in tk or k_di not in tk:
-        res.add_case(case, False)
-        res.violate("missing_site_records", case, {"records": list(tk)}, "missing_site_records:" + tag)
-        return
+        res.violate("missing_site_records", case, {"site": site.name, "records": list(tk)}, "missing_site_records:" + tag)
+        return False, None
     di, tz, ts = tk[k_di], tk[k_tz], tk[k_ts]
     subs = [z.targets[f"{z.name}/{S.DI}"] for z in site.subzones.values()]
     detail = {"DI": [di.hot_utility_target, di.cold_utility_target, di.heat_recovery_target],
@@ -116,24 +141,23 @@ def run(case, res: Result):
         res.violate("total_site_recovery", case, detail, "total_site_recovery:" + tag)
     recovery = ts.hot_utility_target < tz.hot_utility_target - eps
     both_sides = tz.hot_utility_target > eps and tz.cold_utility_target > eps
-    res.stats["inter_zone_recovery" if recovery else "no_inter_zone_recovery"] += 1
-    res.add_case(case, recovery or both_sides, outcome=[detail["DI"], detail["TZ"], detail["TS"]])
+    res.stats[("inter_zone_recovery" if recovery else "no_inter_zone_recovery") + ("" if is_root else ":subsite")] += 1
     # the serialised records carry the same numbers
-    recs = S.records(out)
     for key, t in ((k_di, di), (k_tz, tz), (k_ts, ts)):
         r = recs.get(key)
         if r is None or abs(S.num(r.Qh) - t.hot_utility_target) > eps or abs(S.num(r.Qc) - t.cold_utility_target) > eps or abs(S.num(r.Qr) - t.heat_recovery_target) > eps:
             res.violate("record_ne_target", case, {"record": key}, "record_ne_target:" + tag)
+    return (recovery or both_sides), [detail["DI"], detail["TZ"], detail["TS"]]
 
 
 SUBCHECKS = {
     "service": SubCheck(
         name="service",
         describe="pinch_analysis_service on multi-zone sites: Total Process = sum of zones (values and utilities), DI <= Total Site <= Total Process, recovery identity",
-        rule="case = stream multiset x partition into zones x utility set x label form (flat / nested / explicit tree); "
+        rule="case = stream multiset x partition into zones x utility set x label form (flat / nested / explicit tree / tree of two sub-sites); "
              "non-trivial = inter-zone recovery happens (TS < TZ) or both sides of the summed targets are non-zero; counted separately in stats",
         cases=cases, run=run,
-        bound=lambda t: ("2-3 streams over 12 stream types, <=3 zones, 5 utility sets" if t == "quick" else "2-4 streams over 18 types (latent incl.), <=4 zones, 5 utility sets, all label forms")
+        bound=lambda t: ("2-3 streams over 12 stream types, <=3 zones, 5 utility sets" if t == "quick" else "2-4 streams over 18 types (latent incl.), <=4 zones, 5 utility sets, all label forms") + " + one-zone sites + sites of two sub-sites (explicit tree)"
         + " + same-name streams and unit-operation targeting variants",
     ),
 }
